@@ -78,6 +78,19 @@ def shard_engine(spec: Dict[str, Any], journal: Any) -> Dict[str, Any]:
         hashes.append(case_hash(case))
         if len(samples) < 1 and ref.ops > 3:
             samples.append(enginecmp.sample_of(case, ref))
+    # growth of the engine's own tables under the sanitizer: the speculation shadow table doubles at 2^15, 2^16, 2^17 distinct
+    # op addresses (measure knob), the page table doubles while an image with many pages loads
+    n_ops = [33000, 40000, 70000, 140000][spec['shard'] % 4]
+    growth_cases = [imagegen.long_chain_case(rng, rng.choice([32, 64]), n_ops),
+                    imagegen.page_walk_case(rng, rng.choice([32, 64]), rng.choice([33, 70, 130, 300, 600]), 2)]
+    for case in growth_cases:
+        found, ref = enginecmp.compare_case(case, [{'engine': 'native', 'measure': True}, {'engine': 'native'},
+                                                   {'engine': 'native', 'ring': 3}, {'engine': 'native', 'no_flat': True, 'measure': True},
+                                                   {'engine': 'native', 'no_flat': True, 'ring': 2}],
+                                            rng, check_memory=False, check_ring=True, counters=counters, journal=journal)
+        counters['semantic_divergences_seen'] = counters.get('semantic_divergences_seen', 0) + len(found)
+        counters['table_growth_cases'] = counters.get('table_growth_cases', 0) + 1
+        hashes.append(case_hash(case))
     engines.cleanup_tmpdir()
     counters['asan_engine_runs'] = counters.get('monitor_evaluations', 0)
     return {'counters': counters, 'violations': violations, 'hashes': hashes, 'samples': samples,
